@@ -291,7 +291,7 @@ def run(ctx):
         distinct.add((rule, info.get("host"), tuple(info["kinds"]), info.get("pre"), info.get("prefn")))
     # a rule whose twin is rejected in EVERY context would make the check vacuous for it
     by_rule = {}
-    for (rule, host, kinds, _pre) in distinct:
+    for (rule, host, kinds, _pre, _prefn) in distinct:
         by_rule[rule] = by_rule.get(rule, 0) + 1
     for rule in set(m[0] for m in meta):
         if by_rule.get(rule, 0) == 0:
